@@ -241,6 +241,25 @@ class PageRenderer:
             # For now, we assume header text matches the current page columns.
             pass
 
+            # Widths inherited from the body refer to the original columns: drop the
+            # entries of columns removed from the display (page_by/subline_by) so the
+            # header lines up with the data columns it labels.
+            if (
+                header_copy.col_rel_width is not None
+                and isinstance(document.df, pl.DataFrame)
+                and isinstance(page.data, pl.DataFrame)
+                and page.data.width < document.df.width
+                and len(header_copy.col_rel_width) == document.df.width
+            ):
+                displayed = set(page.data.columns)
+                header_copy.col_rel_width = [
+                    width
+                    for column, width in zip(
+                        document.df.columns, header_copy.col_rel_width, strict=True
+                    )
+                    if column in displayed
+                ]
+
             # Apply top border for first page/first header
             if (
                 page.is_first_page
